@@ -532,6 +532,20 @@ theorem excl_false (X : RTCtx) (scope : List Bytes) :
     (fun k => X.cfg.excl.matchesB (scope ++ [k])) = (fun _ => false) := by
   funext k; exact matchesB_empty _
 
+theorem enc_noexcl_keyed (X : RTCtx) (f : Nat) (scope : List Bytes) (t : Ty) :
+    (fun k v => if X.cfg.excl.matchesB (scope ++ [k]) = true then encodeNoop X.cfg.env t v
+      else encode X.cfg f (scope ++ [k]) t v) = (fun k v => encode X.cfg f (scope ++ [k]) t v) := by
+  funext k v
+  have : X.cfg.excl.matchesB (scope ++ [k]) = false := matchesB_empty _
+  simp [this]
+
+theorem enc_noexcl_typed (X : RTCtx) (f : Nat) (scope : List Bytes) :
+    (fun k t v => if X.cfg.excl.matchesB (scope ++ [k]) = true then encodeNoop X.env t v
+      else encode X.cfg f (scope ++ [k]) t v) = (fun k t v => encode X.cfg f (scope ++ [k]) t v) := by
+  funext k t v
+  have : X.cfg.excl.matchesB (scope ++ [k]) = false := matchesB_empty _
+  simp [this]
+
 theorem roundtrip_tree (X : RTCtx) (ign : Nat) : ∀ (f : Nat) (scopeW : List Bytes) (scopeR : List Seg)
     (top : Bool) (ty : Ty) (v : Value) (doc : Doc), ValOK v →
     encode X.cfg f scopeW ty v = .ok doc →
@@ -569,7 +583,7 @@ theorem roundtrip_tree (X : RTCtx) (ign : Nat) : ∀ (f : Nat) (scopeW : List By
     | map t =>
       cases v <;> simp only [encode, reduceCtorEq] at h
       rename_i es
-      rw [excl_false X scopeW] at h
+      rw [excl_false X scopeW, enc_noexcl_keyed X f scopeW t] at h
       cases hl : encodeKeyed (fun _ => false) (fun k v => encode X.cfg f (scopeW ++ [k]) t v) es with
       | error e => simp [hl, bind, Except.bind] at h
       | ok kvs =>
@@ -646,7 +660,7 @@ theorem roundtrip_tree (X : RTCtx) (ign : Nat) : ∀ (f : Nat) (scopeW : List By
           | none => simp [hsf] at h
           | some triples =>
             simp only [hsf] at h ⊢
-            rw [excl_false X scopeW] at h
+            rw [excl_false X scopeW, enc_noexcl_typed X f scopeW] at h
             cases hl : encodeTyped (fun _ => false) (fun k t v => encode X.cfg f (scopeW ++ [k]) t v) triples with
             | error e => simp [hl, bind, Except.bind] at h
             | ok kvs =>
@@ -704,7 +718,7 @@ theorem roundtrip_tree (X : RTCtx) (ign : Nat) : ∀ (f : Nat) (scopeW : List By
             split at h
             · simp at h
             · next hzero =>
-              rw [excl_false X scopeW] at h
+              rw [excl_false X scopeW, enc_noexcl_typed X f scopeW] at h
               cases hl : encodeTyped (fun _ => false) (fun k t v => encode X.cfg f (scopeW ++ [k]) t v)
                   (setMembers members ms) with
               | error e => simp [hl, bind, Except.bind] at h
